@@ -669,7 +669,9 @@ func (g *Gen) execReturn(v *ssa.Return, st State, reach string) {
 		env := g.envAt(st, g.entryState(), g.pkg, vars)
 		env.inGoal = true
 		t := env.compileBool(c.Expr)
-		g.reportSpecErrors(env, c)
+		if g.reportSpecErrors(env, c) {
+			t.S = "false" // a stale postcondition cannot be established: it fails, by name
+		}
 		label := c.Label
 		if label == "" {
 			label = fmt.Sprint(i)
